@@ -96,7 +96,9 @@ structure Loop where
 /-- Phase of the holder of the lifecycle lock. -/
 inductive CPhase
   | stopping   -- cancelled the loop, waiting for `done`
-  | connA | connB
+  /-- connecting the endpoints (`creating`: on behalf of `newSession`, which
+  writes the files and registers the session afterwards). -/
+  | connA (creating : Bool) | connB (creating : Bool)
   deriving DecidableEq, Repr
 
 inductive TPhase
@@ -310,7 +312,7 @@ def acquire (s : State) (th : Thread) : List State :=
       (match s.loop with
        | some l => if l.connected then [] else [stop]
        | none => [stop])
-    else [({ s with sess := some false, crit := some (th.id, .connA) }).setThread { th with ph := .inside }]
+    else [({ s with sess := some false, crit := some (th.id, .connA false) }).setThread { th with ph := .inside }]
   | .reset =>
     if s.disabled then [finish s th .disabled]
     else if s.running then [stop]
@@ -329,12 +331,12 @@ def afterStop (s : State) (th : Thread) : List State :=
   | .pause => [finish { s with sess := some true, crit := none } th .ok]
   | .terminate =>
     [({ s with disabled := true, sess := none, arch := none, crit := none }).setThread { th with ph := .termDel }]
-  | .resume => [{ s with sess := some false, crit := some (th.id, .connA) }]
-  | .reset => [{ s with sess := some false, arch := some false, crit := some (th.id, .connA) }]
+  | .resume => [{ s with sess := some false, crit := some (th.id, .connA false) }]
+  | .reset => [{ s with sess := some false, arch := some false, crit := some (th.id, .connA false) }]
   | .restart => [({ s with disabled := true, crit := none }).setThread { th with ph := .reload }]
   | _ => []
 
-def othersIdle (s : State) (t : Nat) : Bool := s.threads.all fun x => x.id == t
+def othersIdle (s : State) (_t : Nat) : Bool := s.threads.length == 1
 
 def threadSteps (s : State) (th : Thread) : List (Label × State) :=
   match th.ph with
@@ -347,7 +349,7 @@ def threadSteps (s : State) (th : Thread) : List (Label × State) :=
       else if paused then
         [(.tau, finish { s with sess := some true, arch := some false, entry := true, disabled := false, running := false } th .ok)]
       else
-        [(.tau, ({ s with crit := some (th.id, .connA), disabled := false, running := false }).setThread { th with ph := .inside })]
+        [(.tau, ({ s with crit := some (th.id, .connA true), disabled := false, running := false }).setThread { th with ph := .inside })]
     | .restart =>
       -- (Manager.Shutdown takes each controller's lifecycle lock)
       if !othersIdle s th.id || s.crit.isSome then []
@@ -366,19 +368,17 @@ def threadSteps (s : State) (th : Thread) : List (Label × State) :=
       if t != th.id then [] else
       match ph with
       | .stopping => if s.loop.isNone then (afterStop s th).map fun s' => (.tau, s') else []
-      | .connA => [(.ep (.conn .alpha), { s with crit := some (t, .connB) })]
-      | .connB =>
+      | .connA c => [(.ep (.conn .alpha), { s with crit := some (t, .connB c) })]
+      | .connB c =>
         -- both endpoints connected: (create: save the files, register), start the loop
-        let s1 : State := match th.op with
-          | .create _ => { s with sess := some false, arch := some false, entry := true }
-          | _ => s
+        let s1 : State := if c then { s with sess := some false, arch := some false, entry := true } else s
         [(.ep (.conn .beta), finish ({ s1 with crit := none }.startLoop .connA true) th .ok)]
     | none => []
   | .termDel => [(.tau, finish { s with entry := false } th .ok)]
   | .reload =>
     -- NewManager: load what is on disk into a fresh controller (the old one was
     -- shut down: no loop, lock free)
-    if s.loop.isSome || s.crit.isSome then [] else
+    if s.loop.isSome || s.crit.isSome || !othersIdle s th.id then [] else
     match s.sess with
     | some p =>
       let s1 : State := { s with entry := true, disabled := false, running := false, crit := none }
@@ -413,6 +413,11 @@ def doCall (s : State) (t : Nat) (op : Op) : Option State :=
 inductive Step : State → Label → State → Prop
   | call {s t op s'} : doCall s t op = some s' → Step s (.call t op) s'
   | internal {s l s'} : (l, s') ∈ succ s → Step s l s'
+
+/-- Runs: sequences of steps with their labels (invisible steps included). -/
+inductive Run : State → List Label → State → Prop
+  | nil (s) : Run s [] s
+  | snoc {s tr s' l s''} : Run s tr s' → Step s' l s'' → Run s (tr ++ [l]) s''
 
 def Label.isEndpoint : Label → Bool
   | .ep _ => true
